@@ -367,6 +367,13 @@ func (t *Transformer) ReverseTranslate(v reflect.Value) (reflect.Value, error) {
 	// iterate through manglers in reverse order passing the value of the struct
 	// field paired with its reflect.StructField as a FieldValueTuple
 
+	// sources may hand over a pointer to the struct (dials itself accepts
+	// both, and sourcewrap.Blank returns a pointer while it has no inner
+	// source), so look through it.
+	for v.Kind() == reflect.Ptr && !v.IsNil() {
+		v = v.Elem()
+	}
+
 	layerMangledVal := unpackValueFields(v)
 	// we're iterating backwards through manglers
 	for manglerNum := len(t.manglers) - 1; manglerNum >= 0; manglerNum-- {
